@@ -457,6 +457,8 @@ impl BufferedDatabaseWriter {
         thread::spawn(move || {
             while let Some(mut buffer) = receive_buffer.blocking_recv() {
                 let result = Self::process_batch_write(&mut buffer, &conn);
+                #[cfg(feature = "verif")]
+                let _ = crate::verif_hooks::fault("ack.before");
                 match result {
                     Ok(_) => {
                         for msg in buffer {
@@ -607,8 +609,12 @@ impl BufferedDatabaseWriter {
         let mut daily_log = DailyMutations::default();
         let mut optimize = false; //flag to run the optimize task outside a transaction
 
+        #[cfg(feature = "verif")]
+        let _ = crate::verif_hooks::fault("batch.begin");
         conn.execute("BEGIN TRANSACTION", [])?;
         for query in buffer {
+            #[cfg(feature = "verif")]
+            let _ = crate::verif_hooks::fault("stmt.before");
             match query {
                 WriteMessage::Deletion(query, _) => {
                     if let Err(e) = query.delete(conn) {
@@ -704,8 +710,14 @@ impl BufferedDatabaseWriter {
             }
         }
         //at the end of the batch, update the daily log with all room dates that needs to be recomputed
+        #[cfg(feature = "verif")]
+        let _ = crate::verif_hooks::fault("marks.before");
         daily_log.write(conn)?;
+        #[cfg(feature = "verif")]
+        crate::verif_hooks::fault("commit.before")?;
         conn.execute("COMMIT", [])?;
+        #[cfg(feature = "verif")]
+        let _ = crate::verif_hooks::fault("commit.after");
 
         // run the PRAGMA optimize; outside the transaction
         if optimize {
